@@ -42,6 +42,10 @@ func (pConn *PFCPConn) handleSessionEstablishmentRequest(msg message.Message) (m
 		return pfdres, errUnmarshal(err)
 	}
 
+	if sereq.NodeID == nil || sereq.CPFSEID == nil {
+		return errUnmarshalReply(errMandatoryIEMissing, nil)
+	}
+
 	nodeID, err := sereq.NodeID.NodeID()
 	if err != nil {
 		return errUnmarshalReply(err, sereq.NodeID)
@@ -559,7 +563,15 @@ func (pConn *PFCPConn) handleSessionReportResponse(msg message.Message) error {
 		return errUnmarshal(errMsgUnexpectedType)
 	}
 
-	cause := srres.Cause.Payload[0]
+	if srres.Cause == nil {
+		return errUnmarshal(errMandatoryIEMissing)
+	}
+
+	cause, err := srres.Cause.Cause()
+	if err != nil {
+		return errUnmarshal(err)
+	}
+
 	if cause == ie.CauseRequestAccepted {
 		return nil
 	}
